@@ -171,4 +171,13 @@ def run(chk, F, tier):
                     nidx += 1
                 else:
                     chk.violation("suffix-sum", key + ":fill", "alpha_rev_csum is created with %s entries; n - 1 are needed" % fmt(T.of_operand(t["args"][1])), where=span_str(t.get("span")))
+                # the fill value seeds every tail sum: it must be the LAST alpha, alpha[n - 1]
+                fv = T.of_operand(t["args"][0])
+                fi_ = linear(fv[2]) if fv[0] == "idx" else None
+                nvar = list(cnt[0])[0] if cnt is not None and len(cnt[0]) == 1 else None
+                if fv[0] == "idx" and fmt(fv[1]) == "alpha" and fi_ is not None and fi_ == ({nvar: 1}, -1):
+                    chk.ok("suffix-sum", key + ": tail sums are seeded with alpha[n - 1]")
+                    nidx += 1
+                else:
+                    chk.violation("suffix-sum", key + ":seed", "the tail sums are seeded with %s; the last tail sum is alpha[n - 1]" % fmt(fv), where=span_str(t.get("span")))
     chk.floor("suffix-sum rule instances", nidx, 4)
